@@ -34,10 +34,10 @@ func newSess(c *core.Ctx) *sess {
 	s := &sess{c: c, m: m, regs: m.Registrations(), tr: &an.Tracer{M: m}}
 	var readers, writers []string
 	for fn, k := range m.StateReaders {
-		readers = append(readers, fmt.Sprintf("%s(kind %d)", fn.Name(), k))
+		readers = append(readers, fmt.Sprintf("%s(kind %d)", an.NameOf(fn), k))
 	}
 	for fn := range m.StateWriters {
-		writers = append(writers, fn.Name())
+		writers = append(writers, an.NameOf(fn))
 	}
 	sort.Strings(readers)
 	sort.Strings(writers)
@@ -50,7 +50,7 @@ func newSess(c *core.Ctx) *sess {
 func (s *sess) handlers(in bool, key, parent string) []an.Registration {
 	var out []an.Registration
 	for _, r := range s.regs {
-		if r.In == in && r.Key == key && (parent == "" || r.Parent.Name() == parent) {
+		if r.In == in && r.Key == key && (parent == "" || an.NameOf(r.Parent) == parent) {
 			out = append(out, r)
 		}
 	}
@@ -125,7 +125,7 @@ func init() {
 			if r.In {
 				dir = "in"
 			}
-			fmt.Printf("== %s %s registered in %s: %v\n", dir, r.Key, r.Parent.Name(), r.Fn)
+			fmt.Printf("== %s %s registered in %s: %v\n", dir, r.Key, an.NameOf(r.Parent), r.Fn)
 			if r.Fn == nil {
 				continue
 			}
@@ -147,7 +147,7 @@ func init() {
 					if isReg {
 						continue
 					}
-					fmt.Printf(" -- closure %s\n", f.Name())
+					fmt.Printf(" -- closure %s\n", an.NameOf(f))
 				}
 				for _, t := range s.tr.Traces(f, s.m.AllStates) {
 					fmt.Printf("   %s   final=%s\n", traceStr(t), s.m.SetString(t.Final))
@@ -214,7 +214,7 @@ func (s *sess) roots() []root {
 		if r.In {
 			cat = "inbound"
 		}
-		out = append(out, root{Cat: cat, Key: r.Key + "@" + r.Parent.Name(), Fn: r.Fn, Site: r.Site})
+		out = append(out, root{Cat: cat, Key: r.Key + "@" + an.NameOf(r.Parent), Fn: r.Fn, Site: r.Site})
 		isClosureRoot[r.Fn] = true
 	}
 	for _, fn := range s.allFuncs() {
@@ -225,7 +225,7 @@ func (s *sess) roots() []root {
 			}
 			if g, ok := in.(*ssa.Go); ok {
 				if cf := an.StaticCallee(&g.Call); cf != nil && cf.Pkg == s.m.Pkg {
-					out = append(out, root{Cat: "goroutine", Key: cf.Name(), Fn: cf, Site: in})
+					out = append(out, root{Cat: "goroutine", Key: an.NameOf(cf), Fn: cf, Site: in})
 					isClosureRoot[cf] = true
 				}
 				return
@@ -234,12 +234,12 @@ func (s *sess) roots() []root {
 				switch {
 				case an.FuncIs(cal, "session", "Session.OnChangeState"), an.FuncIs(cal, "utils", "EventHandlerPool.Handle"):
 					if cf := an.ClosureFn(cc.Args[2]); cf != nil && cf.Pkg == s.m.Pkg {
-						out = append(out, root{Cat: "event", Key: evName(cc.Args[1]) + "@" + fn.Name(), Fn: cf, Site: in})
+						out = append(out, root{Cat: "event", Key: evName(cc.Args[1]) + "@" + an.NameOf(fn), Fn: cf, Site: in})
 						isClosureRoot[cf] = true
 					}
 				case an.FuncIs(cal, "time", "AfterFunc"):
 					if cf := an.ClosureFn(cc.Args[1]); cf != nil && cf.Pkg == s.m.Pkg {
-						out = append(out, root{Cat: "afterfunc", Key: cf.Name(), Fn: cf, Site: in})
+						out = append(out, root{Cat: "afterfunc", Key: an.NameOf(cf), Fn: cf, Site: in})
 						isClosureRoot[cf] = true
 					}
 				}
@@ -248,10 +248,10 @@ func (s *sess) roots() []root {
 	}
 	for _, fn := range s.allFuncs() {
 		if fn.Parent() == nil {
-			out = append(out, root{Cat: "method", Key: fn.Name(), Fn: fn})
+			out = append(out, root{Cat: "method", Key: an.NameOf(fn), Fn: fn})
 		} else if !isClosureRoot[fn] {
 			// a closure that is neither registered nor spawned: treat it as its own root so that nothing escapes the census
-			out = append(out, root{Cat: "closure", Key: fn.Name(), Fn: fn})
+			out = append(out, root{Cat: "closure", Key: an.NameOf(fn), Fn: fn})
 		}
 	}
 	return out
